@@ -77,6 +77,25 @@ pub(crate) fn gen_key(rng: &mut Rng) -> Keys {
     Keys { lib: Arc::new(lib), r }
 }
 
+/// The two ends of an exchange: same name, algorithm and secret, but each with its own truncation
+/// policy (RFC 8945 5.2.2.1 lets them differ), chosen so that each accepts what the other sends.
+pub(crate) fn gen_key_pair(rng: &mut Rng) -> (Keys, Keys) {
+    let a = gen_key(rng);
+    if rng.bool() {
+        let b = Keys { lib: a.lib.clone(), r: a.r.clone() };
+        return (a, b);
+    }
+    let alg = a.r.alg;
+    let (fl, native) = (floor_len(alg), alg.native_len());
+    let s_c = rng.range(fl, native);
+    let s_s = rng.range(fl, native);
+    let m_c = rng.range(fl, s_s);
+    let m_s = rng.range(fl, s_c);
+    let name: KeyName = Name::<Vec<u8>>::from_octets(a.r.name.clone()).unwrap().to_string().parse().unwrap();
+    let mk = |min: usize, sign: usize| Keys { lib: Arc::new(Key::new(lib_alg(alg), &a.r.secret, name.clone(), Some(min), Some(sign)).unwrap()), r: RefKey { alg, secret: a.r.secret.clone(), name: a.r.name.clone(), min_mac_len: min, signing_len: sign } };
+    (mk(m_c, s_c), mk(m_s, s_s))
+}
+
 /// Fill a message through the library's builder; every record as opaque data of a random type.
 fn fill(rng: &mut Rng, mb: MessageBuilder<Vec<u8>>, request: Option<&Message<Vec<u8>>>) -> AdditionalBuilder<Vec<u8>> {
     let pool = g::NamePool::new(rng, 4);
@@ -562,17 +581,17 @@ fn tamper_client(c: &mut Ctx, fam: &str, idx: u64, rng: &mut Rng, ks: &Keys, tx:
 
 fn exchange(c: &mut Ctx, fam: &str, idx: u64, log: &mut Log) {
     let mut rng = c.case_rng(fam, idx);
-    let ks = gen_key(&mut rng);
+    let (kc, ksv) = gen_key_pair(&mut rng);
     let t0 = gen_time(&mut rng);
     let fudge = gen_fudge(&mut rng);
     let now_s = offset_time(&mut rng, t0, fudge);
-    let ex = json!({"alg": ks.r.alg.text(), "secret": hex(&ks.r.secret), "key_name": hex(&ks.r.name), "min_mac_len": ks.r.min_mac_len, "signing_len": ks.r.signing_len, "t0": t0, "fudge": fudge, "server_now": now_s});
+    let ex = json!({"alg": kc.r.alg.text(), "secret": hex(&kc.r.secret), "key_name": hex(&kc.r.name), "client_min_mac_len": kc.r.min_mac_len, "client_signing_len": kc.r.signing_len, "server_min_mac_len": ksv.r.min_mac_len, "server_signing_len": ksv.r.signing_len, "t0": t0, "fudge": fudge, "server_now": now_s});
     // --- request
     ctx::step("client request");
     let mut rb = fill(&mut rng, MessageBuilder::new_vec(), None);
     let pre = rb.as_slice().to_vec();
     let id = u16::from_be_bytes([pre[0], pre[1]]);
-    let tx = match ctx::catch(|| ClientTransaction::request_with_fudge(ks.lib.clone(), &mut rb, t48(t0), fudge)) {
+    let tx = match ctx::catch(|| ClientTransaction::request_with_fudge(kc.lib.clone(), &mut rb, t48(t0), fudge)) {
         Ok(Ok(t)) => t,
         Ok(Err(_)) => return,
         Err(pi) => {
@@ -589,22 +608,22 @@ fn exchange(c: &mut Ctx, fam: &str, idx: u64, log: &mut Log) {
             return;
         }
     };
-    let want_mac = rt::mac_for(&ks.r, &Kind::Request, &pre, t0, fudge, 0, &[]);
-    log.mac(&ks.r, "request", None, &[], &pre, t.time, t.fudge, t.error, &t.other, &t.mac);
-    let fields_ok = t.time == t0 && t.fudge == fudge && t.orig_id == id && t.error == 0 && t.other.is_empty() && t.class == 255 && t.ttl == 0 && w::lower(&t.owner) == w::lower(&ks.r.name) && t.alg_name == ks.r.alg.name_wire() && rt::stripped(&signed, &t) == pre;
+    let want_mac = rt::mac_for(&kc.r, &Kind::Request, &pre, t0, fudge, 0, &[]);
+    log.mac(&kc.r, "request", None, &[], &pre, t.time, t.fudge, t.error, &t.other, &t.mac);
+    let fields_ok = t.time == t0 && t.fudge == fudge && t.orig_id == id && t.error == 0 && t.other.is_empty() && t.class == 255 && t.ttl == 0 && w::lower(&t.owner) == w::lower(&kc.r.name) && t.alg_name == kc.r.alg.name_wire() && rt::stripped(&signed, &t) == pre;
     if !fields_ok {
         c.violation("request-tsig-fields", "the TSIG RR of a signed request does not carry the values RFC 8945 4.2 prescribes", rp(c, json!({"signed": hex(&signed)})));
         return;
     }
-    if t.mac[..] != want_mac[..ks.r.signing_len] {
-        c.violation(&format!("mac-differs:request:{}", ks.r.alg.text()), &format!("request MAC {} differs from the RFC 8945 computation {}", hex(&t.mac), hex(&want_mac[..ks.r.signing_len])), rp(c, json!({"signed": hex(&signed)})));
+    if t.mac[..] != want_mac[..kc.r.signing_len] {
+        c.violation(&format!("mac-differs:request:{}", kc.r.alg.text()), &format!("request MAC {} differs from the RFC 8945 computation {}", hex(&t.mac), hex(&want_mac[..kc.r.signing_len])), rp(c, json!({"signed": hex(&signed)})));
         return;
     }
     c.count("macs_compared", 1);
     // --- server verifies
     ctx::step("server request");
-    let want = rt::verify(&ks.r, &Kind::Request, &signed, now_s);
-    let got = server_check(&ks.lib, &signed, now_s);
+    let want = rt::verify(&ksv.r, &Kind::Request, &signed, now_s);
+    let got = server_check(&ksv.lib, &signed, now_s);
     let srv = match (&want, got) {
         (_, SrvOut::Panic(pi)) => {
             c.violation(&format!("panic:{}", pi.site()), &format!("panic verifying an honest request: {}", pi.msg), rp(c, json!({})));
@@ -626,14 +645,14 @@ fn exchange(c: &mut Ctx, fam: &str, idx: u64, log: &mut Log) {
                 rt::Found::Tsig(rtsig) => {
                     let stripped = rt::stripped(&resp, &rtsig);
                     let other = rt::time48(now_s).to_vec();
-                    let want = rt::mac_for(&ks.r, &Kind::Response { request_mac: &t.mac }, &stripped, t0, fudge, 18, &other);
-                    log.mac(&ks.r, "response", Some(&t.mac), &[], &stripped, rtsig.time, rtsig.fudge, rtsig.error, &rtsig.other, &rtsig.mac);
+                    let want = rt::mac_for(&ksv.r, &Kind::Response { request_mac: &t.mac }, &stripped, t0, fudge, 18, &other);
+                    log.mac(&ksv.r, "response", Some(&t.mac), &[], &stripped, rtsig.time, rtsig.fudge, rtsig.error, &rtsig.other, &rtsig.mac);
                     if rtsig.error != 18 || rtsig.other != other || rtsig.time != t0 || resp[3] & 0x0f != 9 {
                         c.violation("badtime-response-fields", "a BADTIME response must be NOTAUTH, carry error 18, the client's time signed and the server's time as other data (RFC 8945 5.2.3)", rp(c, json!({"response": hex(&resp)})));
                         return;
                     }
-                    if rtsig.mac[..] != want[..ks.r.signing_len] {
-                        c.violation("mac-differs:badtime-response", &format!("the MAC of a BADTIME response, {}, differs from the RFC 8945 computation {}", hex(&rtsig.mac), hex(&want[..ks.r.signing_len])), rp(c, json!({"response": hex(&resp)})));
+                    if rtsig.mac[..] != want[..ksv.r.signing_len] {
+                        c.violation("mac-differs:badtime-response", &format!("the MAC of a BADTIME response, {}, differs from the RFC 8945 computation {}", hex(&rtsig.mac), hex(&want[..ksv.r.signing_len])), rp(c, json!({"response": hex(&resp)})));
                         return;
                     }
                     c.count("macs_compared", 1);
@@ -654,7 +673,7 @@ fn exchange(c: &mut Ctx, fam: &str, idx: u64, log: &mut Log) {
                     return;
                 }
             }
-            c.eval(&("badtime", ks.r.alg.text(), ks.r.signing_len == ks.r.alg.native_len(), now_s > t0));
+            c.eval(&("badtime", kc.r.alg.text(), kc.r.signing_len == kc.r.alg.native_len(), now_s > t0));
             None
         }
         (w_, g_) => {
@@ -672,7 +691,7 @@ fn exchange(c: &mut Ctx, fam: &str, idx: u64, log: &mut Log) {
     // --- tampering with the request
     ctx::step("tamper request");
     if rng.chance(1, 2) || (c.tier == crate::ctx::Tier::Thorough) {
-        tamper_server(c, fam, idx, &mut rng, &ks, &signed, &pre, now_s.min(t0 + fudge as u64).max(t0.saturating_sub(fudge as u64)), &ex);
+        tamper_server(c, fam, idx, &mut rng, &ksv, &signed, &pre, now_s.min(t0 + fudge as u64).max(t0.saturating_sub(fudge as u64)), &ex);
     }
     let Some((stx, req_after)) = srv else { return };
     // --- response
@@ -694,16 +713,16 @@ fn exchange(c: &mut Ctx, fam: &str, idx: u64, log: &mut Log) {
             return;
         }
     };
-    let want_mac = rt::mac_for(&ks.r, &Kind::Response { request_mac: &t.mac }, &pre2, t1, fudge2, 0, &[]);
-    log.mac(&ks.r, "response", Some(&t.mac), &[], &pre2, rtsig.time, rtsig.fudge, rtsig.error, &rtsig.other, &rtsig.mac);
-    if rtsig.mac[..] != want_mac[..ks.r.signing_len] || rt::stripped(&resp, &rtsig) != pre2 || rtsig.time != t1 || rtsig.fudge != fudge2 {
-        c.violation(&format!("mac-differs:response:{}", ks.r.alg.text()), &format!("response MAC {} differs from the RFC 8945 computation {} (or the TSIG fields are off)", hex(&rtsig.mac), hex(&want_mac[..ks.r.signing_len])), rp(c, json!({"response": hex(&resp)})));
+    let want_mac = rt::mac_for(&ksv.r, &Kind::Response { request_mac: &t.mac }, &pre2, t1, fudge2, 0, &[]);
+    log.mac(&ksv.r, "response", Some(&t.mac), &[], &pre2, rtsig.time, rtsig.fudge, rtsig.error, &rtsig.other, &rtsig.mac);
+    if rtsig.mac[..] != want_mac[..ksv.r.signing_len] || rt::stripped(&resp, &rtsig) != pre2 || rtsig.time != t1 || rtsig.fudge != fudge2 {
+        c.violation(&format!("mac-differs:response:{}", kc.r.alg.text()), &format!("response MAC {} differs from the RFC 8945 computation {} (or the TSIG fields are off)", hex(&rtsig.mac), hex(&want_mac[..ksv.r.signing_len])), rp(c, json!({"response": hex(&resp)})));
         return;
     }
     c.count("macs_compared", 1);
     ctx::step("client answer");
     let now_c = offset_time(&mut rng, t1, fudge2);
-    let want = rt::verify(&ks.r, &Kind::Response { request_mac: &t.mac }, &resp, now_c);
+    let want = rt::verify(&kc.r, &Kind::Response { request_mac: &t.mac }, &resp, now_c);
     match (&want, client_check(&tx, &resp, now_c)) {
         (_, CliOut::Panic(pi)) => {
             c.violation(&format!("panic:{}", pi.site()), &format!("panic verifying an honest response: {}", pi.msg), rp(c, json!({})));
@@ -733,12 +752,12 @@ fn exchange(c: &mut Ctx, fam: &str, idx: u64, log: &mut Log) {
     if rng.chance(1, 2) || (c.tier == crate::ctx::Tier::Thorough) {
         ctx::step("tamper response");
         let inside = now_c.min(t1 + fudge2 as u64).max(t1.saturating_sub(fudge2 as u64));
-        tamper_client(c, fam, idx, &mut rng, &ks, &tx, &t.mac, &resp, inside, &ex);
+        tamper_client(c, fam, idx, &mut rng, &kc, &tx, &t.mac, &resp, inside, &ex);
     }
     let dt = (now_s as i128 - t0 as i128).signum();
-    c.eval(&("exchange", ks.r.alg.text(), ks.r.signing_len == ks.r.alg.native_len(), ks.r.min_mac_len == ks.r.signing_len, fudge.min(2), dt, want.is_ok(), pre.len() / 64));
+    c.eval(&("exchange", kc.r.alg.text(), kc.r.signing_len == kc.r.alg.native_len(), ksv.r.signing_len == kc.r.signing_len, kc.r.min_mac_len == kc.r.signing_len, fudge.min(2), dt, want.is_ok(), pre.len() / 64));
     if c.want_sample() && idx % 17 == 0 {
-        c.sample(json!({"alg": ks.r.alg.text(), "signing_len": ks.r.signing_len, "request_len": signed.len(), "response_len": resp.len(), "t0": t0, "fudge": fudge, "server_now": now_s}));
+        c.sample(json!({"alg": kc.r.alg.text(), "signing_len": kc.r.signing_len, "request_len": signed.len(), "response_len": resp.len(), "t0": t0, "fudge": fudge, "server_now": now_s}));
     }
 }
 
@@ -746,13 +765,13 @@ fn exchange(c: &mut Ctx, fam: &str, idx: u64, log: &mut Log) {
 /// (which may leave messages unsigned) against the library's client.
 fn sequence(c: &mut Ctx, fam: &str, idx: u64, log: &mut Log) {
     let mut rng = c.case_rng(fam, idx);
-    let ks = gen_key(&mut rng);
+    let (kc, ksv) = gen_key_pair(&mut rng);
     let t0 = gen_time(&mut rng).min(T48_MAX - 100_000);
-    let ex = json!({"alg": ks.r.alg.text(), "secret": hex(&ks.r.secret), "key_name": hex(&ks.r.name), "min_mac_len": ks.r.min_mac_len, "signing_len": ks.r.signing_len, "t0": t0});
+    let ex = json!({"alg": ksv.r.alg.text(), "secret": hex(&ksv.r.secret), "key_name": hex(&ksv.r.name), "client_min_mac_len": kc.r.min_mac_len, "client_signing_len": kc.r.signing_len, "server_min_mac_len": ksv.r.min_mac_len, "server_signing_len": ksv.r.signing_len, "t0": t0});
     let rp = |c: &Ctx, extra: serde_json::Value| c.replay_of(fam, idx, json!({"ctx": ex, "more": extra}));
     let mut rb = fill(&mut rng, MessageBuilder::new_vec(), None);
     let pre = rb.as_slice().to_vec();
-    let Ok(mut cseq) = ClientSequence::request_with_fudge(ks.lib.clone(), &mut rb, t48(t0), 300) else { return };
+    let Ok(mut cseq) = ClientSequence::request_with_fudge(kc.lib.clone(), &mut rb, t48(t0), 300) else { return };
     let signed = rb.finish();
     let rt::Found::Tsig(t) = rt::find(&signed) else {
         c.violation("signed-request-malformed", "sequence request", rp(c, json!({})));
@@ -765,7 +784,7 @@ fn sequence(c: &mut Ctx, fam: &str, idx: u64, log: &mut Log) {
         // the library signs every message
         ctx::step("lib server sequence");
         let mut m = Message::from_octets(signed.clone()).unwrap();
-        let mut sseq = match ServerSequence::request(&ks.lib, &mut m, t48(t0)) {
+        let mut sseq = match ServerSequence::request(&ksv.lib, &mut m, t48(t0)) {
             Ok(Some(s)) => s,
             _ => {
                 c.violation("honest-request-rejected", "ServerSequence::request refuses an honest request", rp(c, json!({})));
@@ -787,13 +806,13 @@ fn sequence(c: &mut Ctx, fam: &str, idx: u64, log: &mut Log) {
                 return;
             };
             let kind = if i == 0 { Kind::Response { request_mac: &prior } } else { Kind::Subsequent { prior_mac: &prior, unsigned: &[] } };
-            let want = rt::mac_for(&ks.r, &kind, &prei, ti, 300, 0, &[]);
-            log.mac(&ks.r, if i == 0 { "response" } else { "subsequent" }, Some(&prior), &[], &prei, ts.time, ts.fudge, ts.error, &ts.other, &ts.mac);
-            if ts.mac[..] != want[..ks.r.signing_len] {
-                let trunc = ks.r.signing_len != ks.r.alg.native_len();
+            let want = rt::mac_for(&ksv.r, &kind, &prei, ti, 300, 0, &[]);
+            log.mac(&ksv.r, if i == 0 { "response" } else { "subsequent" }, Some(&prior), &[], &prei, ts.time, ts.fudge, ts.error, &ts.other, &ts.mac);
+            if ts.mac[..] != want[..ksv.r.signing_len] {
+                let trunc = ksv.r.signing_len != ksv.r.alg.native_len();
                 c.violation(
                     &format!("mac-differs:sequence-message:{}", if trunc { "truncated-mac" } else { "full-mac" }),
-                    &format!("message {} of a signed multi-message response: MAC {} differs from the RFC 8945 computation {} (prior MAC as sent: {} octets)", i + 1, hex(&ts.mac), hex(&want[..ks.r.signing_len]), prior.len()),
+                    &format!("message {} of a signed multi-message response: MAC {} differs from the RFC 8945 computation {} (prior MAC as sent: {} octets)", i + 1, hex(&ts.mac), hex(&want[..ksv.r.signing_len]), prior.len()),
                     rp(c, json!({"i": i, "message": hex(&ri)})),
                 );
                 return;
@@ -816,7 +835,7 @@ fn sequence(c: &mut Ctx, fam: &str, idx: u64, log: &mut Log) {
             return;
         }
         c.count("lib_server_sequences", 1);
-        c.eval(&("seq-lib", ks.r.alg.text(), ks.r.signing_len == ks.r.alg.native_len(), n));
+        c.eval(&("seq-lib", ksv.r.alg.text(), ksv.r.signing_len == ksv.r.alg.native_len(), n));
         return;
     }
     // the reference server: signs the first message, then according to a pattern
@@ -852,7 +871,7 @@ fn sequence(c: &mut Ctx, fam: &str, idx: u64, log: &mut Log) {
         let (prior_before, unsigned_before) = (prior.clone(), unsigned.clone());
         let (mut wire, is_signed) = if sign_it {
             let kind = if i == 0 { Kind::Response { request_mac: &prior } } else { Kind::Subsequent { prior_mac: &prior, unsigned: &unsigned } };
-            let (m, mac) = rt::sign(&ks.r, &kind, &prei, ti, 300, 0, &[]);
+            let (m, mac) = rt::sign(&ksv.r, &kind, &prei, ti, 300, 0, &[]);
             prior = mac;
             unsigned.clear();
             (m, true)
@@ -893,7 +912,7 @@ fn sequence(c: &mut Ctx, fam: &str, idx: u64, log: &mut Log) {
             if res.is_ok() {
                 // the flip may have hit something TSIG tolerates (case of the key name): ask the reference
                 let kind = if i == 0 { Kind::Response { request_mac: &prior_before } } else { Kind::Subsequent { prior_mac: &prior_before, unsigned: &unsigned_before } };
-                match rt::verify(&ks.r, &kind, &wire, ti) {
+                match rt::verify(&kc.r, &kind, &wire, ti) {
                     Ok(_) => c.count("tampered_but_authentic_by_rfc", 1),
                     Err(RefErr::Unsigned) => {
                         // the flip hid the TSIG RR: the message passes as an unsigned one for now, the next signed message must fail
@@ -922,7 +941,7 @@ fn sequence(c: &mut Ctx, fam: &str, idx: u64, log: &mut Log) {
                 c.violation("too-many-unsigned-accepted", &format!("the {}th unsigned message in a row is accepted (RFC 8945 5.3.1: at least every 100th message must be signed)", run), rp(c, json!({"i": i, "gap": gap})));
             } else {
                 c.count("unsigned_runs_cut_off", 1);
-                c.eval(&("seq-ref", "too-many", ks.r.alg.text()));
+                c.eval(&("seq-ref", "too-many", ksv.r.alg.text()));
             }
             return;
         }
@@ -933,11 +952,11 @@ fn sequence(c: &mut Ctx, fam: &str, idx: u64, log: &mut Log) {
             }
             (Err(_), true, true) => {
                 c.count("poisoned_sequences_rejected", 1);
-                c.eval(&("seq-ref", "poisoned", ks.r.alg.text()));
+                c.eval(&("seq-ref", "poisoned", ksv.r.alg.text()));
                 return;
             }
             (Err(e), _, false) => {
-                let trunc = ks.r.signing_len != ks.r.alg.native_len();
+                let trunc = ksv.r.signing_len != ksv.r.alg.native_len();
                 c.violation(
                     &format!("honest-sequence-rejected:{}", if is_signed { if run == 0 && !unsigned.is_empty() { "signed" } else if trunc { "signed:truncated-mac" } else { "signed" } } else { "unsigned" }),
                     &format!("message {} of {} ({}; {} unsigned before it) from an RFC 8945 server is refused: {}", i + 1, n, if is_signed { "signed" } else { "unsigned" }, run, err_class(e)),
@@ -971,7 +990,7 @@ fn sequence(c: &mut Ctx, fam: &str, idx: u64, log: &mut Log) {
     if gap == 99 && n > 100 {
         c.count("runs_of_99_unsigned_accepted", 1);
     }
-    c.eval(&("seq-ref", ks.r.alg.text(), ks.r.signing_len == ks.r.alg.native_len(), n.min(101) / 10, gap.min(13), ends_unsigned));
+    c.eval(&("seq-ref", ksv.r.alg.text(), ksv.r.signing_len == ksv.r.alg.native_len(), n.min(101) / 10, gap.min(13), ends_unsigned));
 }
 
 fn key_bounds(c: &mut Ctx) {
